@@ -152,6 +152,76 @@ def linear(ck, sh, mm):
             gname, n, pulses, 'arbitrary symbolic' if symbolic_Z else 'concrete catalogue'))
 
 
+def reuse(ck, sh, mm):
+    """One model object solved several times with the excitation changed in between (sources replaced, a
+    source added, a voltage changed) must give the currents of a fresh object with the final excitation --
+    superposition experiments are normally done exactly this way."""
+    M = sh.mininec
+    cases = [('G8', 3, 2, 0), ('G2', 4, 1, 3)] if ck.tier == 'quick' else [('G8', 3, 2, 0), ('G2', 4, 1, 3), ('G1', 3, 0, 2), ('G7', 4, 0, 3)]
+    for gname, n, p1, p2 in cases:
+        def fn(gname=gname, n=n, p1=p1, p2=p2):
+            f = pos('f', 0.1, 1000)
+            V1, V2 = SC.var('V1'), SC.var('V2')
+            c = symx.ctx()
+            for v in (V1, V2):
+                c.assume(z3.Or(v.nr != 0, v.ni != 0))
+            Z = _sym_matrix(n)
+            with symx.object_arrays():
+                m = catalogue.build(M, gname, f=f)
+                _stub_fill(m, Z)
+                s1 = M.Excitation(V1)
+                m.register_source(s1, p1)
+                m.compute()
+                # (a) replace the sources (the idiom of the package's own doctests)
+                m.sources = []
+                m.register_source(M.Excitation(V2), p2)
+                m.compute()
+                Ia = m.current
+                za = m.sources[0].impedance
+                # (b) add a second source to the same object
+                m.register_source(M.Excitation(V1), p1)
+                m.compute()
+                Ib = m.current
+                fa, _ = _solve(M, gname, f, Z, [V2], [p2])
+                fb, _ = _solve(M, gname, f, Z, [V2, V1], [p2, p1])
+            return dict(inputs=dict(f=f, V1=V1, V2=V2, Z=list(Z.reshape(-1))), Ia=Ia, Ib=Ib, fa=fa.current, fb=fb.current,
+                        za=za, fza=fa.sources[0].impedance, n=n)
+
+        def goals(o):
+            n = o['n']
+            return [('after replacing the sources: currents of a fresh object', z3.And(*[eq_term(o['Ia'][i], o['fa'][i]) for i in range(n)])),
+                    ('after replacing the sources: impedance of a fresh object', eq_term(o['za'], o['fza'])),
+                    ('after adding a source: currents of a fresh object', z3.And(*[eq_term(o['Ib'][i], o['fb'][i]) for i in range(n)]))]
+
+        def replay(c, gn, out, gname=gname, n=n, p1=p1, p2=p2):
+            Zc = np.array(c['Z'], dtype=complex).reshape(n, n)
+            V1, V2 = complex(c['V1']), complex(c['V2'])
+            m = catalogue.build(mm, gname, f=c['f'])
+
+            def fill():
+                m.Z = Zc.copy()
+            m.compute_impedance_matrix = fill
+            m.register_source(mm.Excitation(V1), p1)
+            m.compute()
+            m.sources = []
+            m.register_source(mm.Excitation(V2), p2)
+            m.compute()
+            Ia = np.array(m.current)
+            m.register_source(mm.Excitation(V1), p1)
+            m.compute()
+            Ib = np.array(m.current)
+            fa, _ = _real_solve(mm, gname, c['f'], Zc, [V2], [p2])
+            fb, _ = _real_solve(mm, gname, c['f'], Zc, [V2, V1], [p2, p1])
+            tol = 1e-9 * max(np.linalg.cond(Zc), 1)
+            for nm, a, b in (('replacing the sources', Ia, fa.current), ('adding a source', Ib, fb.current)):
+                if not np.allclose(a, b, rtol=tol, atol=tol * max(abs(b).max(), 1e-300)):
+                    return ('C07:reuse:%s' % gname, '%s: after %s on a model that was already solved the currents are %r, a fresh model gives %r'
+                            % (gname, nm, a, np.array(b)), dict(kind='reuse', geometry=gname))
+            return None
+        prove_paths(ck, 'reuse-%s' % gname, fn, goals, replay)
+        ck.bounds.setdefault('cases', []).append('%s: one object solved three times (sources replaced, source added), arbitrary Z' % gname)
+
+
 def source_data(ck, sh, mm):
     """V/I and Re(V I*)/2 for an ARBITRARY current vector (the solve is not involved)."""
     M = sh.mininec
@@ -231,6 +301,7 @@ def main(args):
     mm = symx.real_mininec()
     with symx.shadow.trace_functions(sh):
         linear(ck, sh, mm)
+        reuse(ck, sh, mm)
         source_data(ck, sh, mm)
     ck.functions = sh.entered
     ck.assumptions += [
